@@ -354,6 +354,13 @@ package db
 //@ // ===== C13: schema version / collection identifiers are deterministic functions of the (sorted) set of
 //@ // type definitions
 //@ discipline deterministic generateSetID, assignIDs allow slices.SortFunc[*], strings.Compare, json.Marshal, cid.NewSHA256CidV1, (cid.Cid).String, fmt.Sprintf tags C13
+//@ // a document is stored under the identifier computed from its content: the identifier it carries is
+//@ // compared with the one generated here, and the key that is returned is the key of the generated one
+//@ func (*collection).getDocIDAndPrimaryKeyFromDoc -> (id, pk, err)
+//@   assert before call#1 getPrimaryKeyFromDocID: arg2 == res(GenerateDocID, 1, 0) && res(GenerateDocID, 1, 1) == nil
+//@   ensures err == nil ==> id == res(GenerateDocID, 1, 0) && pk == res(getPrimaryKeyFromDocID, 1, 0)
+//@   modifies failed, storeFailed
+//@   tags C13
 //@ // the walk that numbers the members of circular sets visits the types in sorted-name order, not in the
 //@ // order of the SDL or of a map
 //@ func getSchemaSets
